@@ -4,6 +4,7 @@
 -/
 import SqlglotModel.Proofs.Schema
 import SqlglotModel.Proofs.SchemaMemo
+import SqlglotModel.Proofs.SchemaFull
 import SqlglotModel.Generated.C18
 
 namespace SqlglotModel.Properties.C18
@@ -193,17 +194,23 @@ theorem table_compute_reads_only (f : CaseFns) (x y : TableIn)
   simp only [TableIn.proj, FVal.t.injEq, FVal.b.injEq, FVal.d.injEq] at h1 h2 h3
   simp [tableCompute, h1, h2, h3]
 
-/-- `_normalized_table_cache` (entries stored under the NORMALISED table) is transparent for every history:
-    needs the key to cover the inputs and normalisation to be idempotent -/
-theorem table_cache_transparent (f : CaseFns) (hf : f.Ok) (layout : List TField)
-    (hc : covers layout tableCacheReads = true) (xs : List TableIn) (x : TableIn) :
-    (tableCall f layout (tableRun f layout [] xs) x).2 = tableCompute f x := by
-  refine memo_transparent (tableKey layout) _ _ (tableCompute f) _ ?_ [] (memoInv_nil _ _) xs x
-  intro x y hk
+/-- an entry stored under the NORMALISED table is right for every input that hits it: the key covers the inputs
+    and normalisation is idempotent -/
+theorem table_store_key_determines (f : CaseFns) (hf : f.Ok) (layout : List TField)
+    (hc : covers layout tableCacheReads = true) (x y : TableIn)
+    (hk : tableKey layout y = tableKey layout { x with table := tableCompute f x }) :
+    tableCompute f y = tableCompute f x := by
   have h := table_compute_reads_only f y { x with table := tableCompute f x }
     (fun fld hfld => key_fields TableIn.proj layout _ _ hk fld (covers_mem hc fld hfld))
   rw [h]
   simp [tableCompute, normTable_idem f hf]
+
+/-- `_normalized_table_cache` (entries stored under the NORMALISED table) is transparent for every history -/
+theorem table_cache_transparent (f : CaseFns) (hf : f.Ok) (layout : List TField)
+    (hc : covers layout tableCacheReads = true) (xs : List TableIn) (x : TableIn) :
+    (tableCall f layout (tableRun f layout [] xs) x).2 = tableCompute f x :=
+  memo_transparent (tableKey layout) _ _ (tableCompute f) _
+    (fun x y hk => table_store_key_determines f hf layout hc x y hk) [] (memoInv_nil _ _) xs x
 
 example : CaseFns.Ok ⟨id, id⟩ := ⟨fun _ => rfl, fun _ => rfl⟩
 
@@ -239,5 +246,233 @@ theorem generated_type_cache_key_known :
     typeCacheKey = [.tyStr] ∨ covers typeCacheKey typeCacheReads = true := by decide
 
 end Memo
+
+/-! ## The nested dict, the nested trie and the lazily cached depth refine the flat view -/
+
+section Tree
+
+/-- `nested_get` on a uniform-depth nested dict = lookup in the flat view -/
+theorem nested_get_refines (d : Nat) (m : Tree) (path : Path) (hs : Shape d m) (hl : path.length = d) :
+    nestedGet m path = match lookup (flatView d m) path with
+      | some c => .found (.leaf c)
+      | none => .missing := nestedGet_flatView d m path hs hl
+
+/-- `flatView (nested_set m path cols) = dictSet (flatView m) path cols` as finite maps (the nested dict groups a
+    new table under its existing parents, the flat list appends it: the ORDER differs, nothing observable does) -/
+theorem nested_set_refines (d : Nat) (m : Tree) (path : Path) (c : Cols) (hs : Shape (d + 1) m)
+    (hl : path.length = d + 1) (q : Path) :
+    lookup (flatView (d + 1) (nestedSet m path (.leaf c))) q = lookup (dictSet (flatView (d + 1) m) path c) q := by
+  rw [(flatView_nestedSet d m path c hs hl).2 q, lookup_dictSet]
+
+example : Shape 2 (.node [("d", .node [("t", .leaf [("a", "INT")])])]) :=
+  ⟨_, rfl, by simp, by simp [Shape]⟩
+
+theorem nested_set_keeps_uniform (d : Nat) (m : Tree) (path : Path) (c : Cols)
+    (h : Uniform (d + 1) m ∨ m = .node []) (hl : path.length = d + 1) :
+    Uniform (d + 1) (nestedSet m path (.leaf c)) := uniform_nestedSet d m path c h hl
+
+/-- `flatten_schema(mapping, depth)` lists exactly the paths of the flat view -/
+theorem flatten_schema_refines (d : Nat) (m : Tree) (keys : List Name) (hs : Shape (d + 1) m) :
+    flatten (d + 1) keys m = (flatView (d + 1) m).map (fun pc => keys ++ pc.1) := flatten_flatView d m keys hs
+
+/-- `dict_depth` of a uniform mapping (so `MappingSchema.depth() = dict_depth - 1 = d`) -/
+theorem dict_depth_uniform (d : Nat) (m : Tree) (h : Uniform d m) : dictDepth m = d + 1 := dictDepth_uniform d m h
+
+/-- `new_trie([key], trie)` adds exactly `key` to the key list (as a set) and keeps the trie uniform -/
+theorem new_trie_refines (key : List Name) (d : Nat) (t : Trie) (ht : UniformT d t ∨ t = Trie.empty)
+    (hl : key.length = d) :
+    UniformT d (trieInsert t key) ∧ ∀ q, q ∈ keysAt d (trieInsert t key) ↔ (q = key ∨ q ∈ keysAt d t) :=
+  trieInsert_spec key d t ht hl
+
+/-- **`in_trie` on the nested trie = `inTrie` on its key list**, including the possibilities
+    `flatten_schema(subtrie)` of a PREFIX hit -/
+theorem in_trie_refines (d : Nat) (t : Trie) (ht : UniformT (d + 1) t ∨ t = Trie.empty) (key : List Name)
+    (hl : key.length ≤ d + 1) : inTrieT t key = inTrie (keysAt (d + 1) t) key := inTrieT_refines d t ht key hl
+
+example : UniformT 2 (trieInsert Trie.empty ["t", "d"]) :=
+  (trieInsert_spec ["t", "d"] 2 Trie.empty (Or.inr rfl) rfl).1
+
+/-- the flat specification looks at the key list only as a SET -/
+theorem find_in_trie_set_congr {l1 l2 : List (List Name)} (h : SameKeys l1 l2) (parts : List Name) (raise : Bool) :
+    findInTrie l1 parts raise = findInTrie l2 parts raise := findInTrie_congr h parts raise
+
+/-- … and at the mapping only as a finite map: equivalent flat states answer alike and stay equivalent -/
+theorem step_equiv_congr (E : Env) (ev : Evict) {S T : St} (h : Equiv S T) (op : Op) :
+    (step E ev S op).2 = (step E ev T op).2 ∧ Equiv (step E ev S op).1 (step E ev T op).1 :=
+  stepN_congr E ev h (normOp E op)
+
+/-- **`depth()`'s cache**: on every admissible state the value returned (cached `_depth` or freshly computed)
+    equals the recomputed depth, and filling the cache changes nothing else -/
+theorem depth_cache_correct {C : Core} {d : Nat} (h : CShape C d) :
+    (cDepth C).2 = d ∧ CShape (cDepth C).1 d ∧ SameData C (cDepth C).1 := cDepth_spec h
+
+/-- **`supported_table_args`' cache** likewise -/
+theorem supported_args_cache_correct {C : Core} {d : Nat} (h : CShape C d) :
+    (cArgs C).2 = d ∧ CShape (cArgs C).1 d ∧ SameData C (cArgs C).1 := cArgs_spec h
+
+def L0 : Layouts := ⟨[.name, .quoted, .dialect, .isTable, .normalize], [.table, .dialect, .normalize], [.tyStr, .dialect], .all⟩
+def core2 : Core := coreOfMapping (.node [("d", .node [("t", .leaf [("a", "INT")])])])
+
+example : CShape core2 2 := (coreOfMapping_spec 1 _ ⟨_, rfl, by simp, by simp, by
+  intro kv hkv; simp at hkv; subst hkv; exact ⟨_, rfl, by simp, by simp, by
+    intro kv hkv; simp at hkv; subst hkv; exact ⟨_, rfl⟩⟩⟩).1
+
+/-- **the `match_depth` error**: a table whose number of parts differs from the schema depth is rejected and
+    nothing but the depth cache is touched -/
+theorem match_depth_error (E : Env) (L : Layouts) {C : Core} {d : Nat} (h : CShape C (d + 1)) (nt : List Ident)
+    (ncols : Cols) (hl : nt.length ≠ d + 1) :
+    (coreStep E L C (.addTable nt ncols)).2 = .err .depthMismatch ∧ SameData C (coreStep E L C (.addTable nt ncols)).1 := by
+  obtain ⟨c1, _, c3⟩ := cDepth_spec h
+  cases h with
+  | full _ hu ht hdc hac =>
+    have hne := uniform_not_empty hu
+    have hb : (nt.length != d + 1) = true := by simp [hl]
+    have hcond : (!C.mapping.isEmptyDict && nt.length != (cDepth C).2) = true := by simp [hne, c1, hb]
+    simp only [coreStep, hcond, if_true]
+    exact ⟨trivial, c3⟩
+
+/-- **why the cached depth must equal the recomputed one**: with a stale `_depth` (1 instead of 2) a correctly
+    qualified `add_table("d.u", …)` is rejected, while the same call on the admissible state succeeds -/
+theorem stale_depth_witness :
+    (coreStep envA L0 { core2 with depthC := 1 } (.addTable [⟨"d", false⟩, ⟨"u", false⟩] [("b", "INT")])).2
+      = .err .depthMismatch ∧
+    (coreStep envA L0 core2 (.addTable [⟨"d", false⟩, ⟨"u", false⟩] [("b", "INT")])).2 = .unit := by
+  decide +kernel
+
+/-- one public method on the full core (nested structures + caches) = the same method on the flat view -/
+theorem core_step_refines {L : Layouts} {E : Env} (hk : TypeKeyOK L E) {C : Core} {d : Nat} (h : CShape C d)
+    (hT : TInv L E C) (op : NOp) (hop : NAdm op) :
+    (coreStep E L C op).2 = (stepN E L.evict (absC C d) op).2 ∧
+    ∃ d', CShape (coreStep E L C op).1 d' ∧ TInv L E (coreStep E L C op).1 ∧
+      Equiv (absC (coreStep E L C op).1 d') (stepN E L.evict (absC C d) op).1 := coreStep_spec hk h hT op hop
+
+end Tree
+
+/-! ## The full model (what the driver executes against the real code) refines the specification -/
+
+section Full
+open SqlglotModel.Generated.C18
+
+/-- the key layouts and eviction policy extracted from the source on this run -/
+def genL : Layouts := ⟨nameCacheKey, tableCacheKey, typeCacheKey, evictionPolicy⟩
+
+/-- a covering type-cache key is fine in every environment … -/
+theorem type_key_ok_of_covers (L : Layouts) (E : Env) (hc : covers L.ty typeCacheReads = true) : TypeKeyOK L E :=
+  fun x y hk => type_parse_reads_only E.ty x y
+    (fun fld hfld => key_fields TypeIn.proj L.ty _ _ hk fld (covers_mem hc fld hfld))
+
+/-- … today's text-only key is fine exactly in environments where the dialects in play parse type texts alike
+    (otherwise: `type_cache_stale_witness`, known finding C18-type-cache-dialect) -/
+theorem type_key_ok_of_dialect_insensitive (L : Layouts) (E : Env) (hL : L.ty = [.tyStr])
+    (hE : ∀ a b s, E.ty a s = E.ty b s) : TypeKeyOK L E := by
+  intro x y hk
+  simp only [typeKey, hL, List.map_cons, List.map_nil, TypeIn.proj, List.cons.injEq, FVal.s.injEq, and_true] at hk
+  simp only [tyParse, hk]
+  exact hE _ _ _
+
+/-- with the layouts found in the source, the name and table caches are sound in every environment whose case maps
+    are idempotent; the type cache under the stated hypothesis -/
+theorem generated_keys_ok (E : Env) (hf : E.f.Ok) (hty : TypeKeyOK genL E) : KeysOK genL E :=
+  ⟨hty, fun x y hk => name_key_determines E.f nameCacheKey generated_name_cache_key_ok x y hk,
+   fun x y hk => table_store_key_determines E.f hf tableCacheKey generated_table_cache_key_ok x y hk⟩
+
+/-- **one call**: the full model answers like the flat specification and the simulation is kept -/
+theorem full_step_refines {L : Layouts} {E : Env} (hk : KeysOK L E) {F : FSt} {d : Nat} {S : St}
+    (hF : FInv L E F d) (hEq : Equiv (absC F.core d) S) (op : FOp) (hop : FAdm op) :
+    (fStep E L F op).2 = (step E L.evict S op.toOp).2 ∧
+    ∃ d', FInv L E (fStep E L F op).1 d' ∧ Equiv (absC (fStep E L F op).1.core d') (step E L.evict S op.toOp).1 :=
+  fStep_refines hk hF hEq op hop
+
+/-- **every history** -/
+theorem full_run_refines {L : Layouts} {E : Env} (hk : KeysOK L E) (ops : List FOp) {F : FSt} {d : Nat} {S : St}
+    (hF : FInv L E F d) (hEq : Equiv (absC F.core d) S) (hadm : ∀ op ∈ ops, FAdm op) :
+    ∃ d', FInv L E (fRun E L F ops) d' ∧ Equiv (absC (fRun E L F ops).core d') (run E L.evict S (ops.map FOp.toOp)) :=
+  fRun_refines hk ops hF hEq hadm
+
+/-- **C18 for the full model.** After any history on the full model (nested dict, nested trie, all five caches,
+    key layouts and eviction as found in the source), every call answers exactly as the flat specification of a
+    schema freshly built from the final mapping. -/
+theorem full_schema_refines_fresh (E : Env) (hf : E.f.Ok) (hty : TypeKeyOK genL E) (F0 : FSt) (d : Nat) (S0 : St)
+    (hF : FInv genL E F0 d) (hS : Inv E S0) (hEq : Equiv (absC F0.core d) S0) (ops : List FOp)
+    (hadm : ∀ op ∈ ops, FAdm op) (q : FOp) (hq : FAdm q) :
+    (fStep E genL (fRun E genL F0 ops) q).2 =
+      (step E .all (fresh (run E .all S0 (ops.map FOp.toOp))) q.toOp).2 := by
+  have hk := generated_keys_ok E hf hty
+  have hev : genL.evict = .all := generated_policy_ok
+  obtain ⟨d', h1, h2⟩ := fRun_refines hk ops hF hEq hadm
+  obtain ⟨h3, _⟩ := fStep_refines hk h1 h2 q hq
+  rw [h3, hev]
+  exact schema_refines_fresh E S0 hS (ops.map FOp.toOp) q.toOp
+
+/-- the state `MappingSchema(mapping, normalize=False)` builds is admissible and stands for the fresh flat state -/
+theorem constructor_state_ok (d : Nat) (m : Tree) (hu : Uniform (d + 1) m) :
+    CShape (coreOfMapping m) (d + 1) ∧
+    Equiv (absC (coreOfMapping m) (d + 1)) (fresh ⟨flatView (d + 1) m, [], []⟩) := coreOfMapping_spec d m hu
+
+/-- … so the refinement applies to every schema constructed from a uniform nested mapping (or from nothing) -/
+theorem full_refines_fresh_from_mapping (E : Env) (hf : E.f.Ok) (hty : TypeKeyOK genL E) (d : Nat) (m : Tree)
+    (hu : Uniform (d + 1) m) (ops : List FOp) (hadm : ∀ op ∈ ops, FAdm op) (q : FOp) (hq : FAdm q) :
+    (fStep E genL (fRun E genL ⟨coreOfMapping m, [], []⟩ ops) q).2 =
+      (step E .all (fresh (run E .all (fresh ⟨flatView (d + 1) m, [], []⟩) (ops.map FOp.toOp))) q.toOp).2 := by
+  obtain ⟨h1, h2⟩ := coreOfMapping_spec d m hu
+  have ht : TInv genL E (coreOfMapping m) := by
+    intro k v h; simp [coreOfMapping, cDepth, lookup] at h; split at h <;> simp [lookup] at h
+  exact full_schema_refines_fresh E hf hty ⟨coreOfMapping m, [], []⟩ (d + 1) _
+    ⟨h1, ht, (memoInv_nil _ _ : NamesInv genL E []), (memoInv_nil _ _ : TablesInv genL E [])⟩
+    (fresh_inv E _) h2 ops hadm q hq
+
+theorem full_refines_fresh_from_empty (E : Env) (hf : E.f.Ok) (hty : TypeKeyOK genL E)
+    (ops : List FOp) (hadm : ∀ op ∈ ops, FAdm op) (q : FOp) (hq : FAdm q) :
+    (fStep E genL (fRun E genL ⟨coreOfMapping (.node []), [], []⟩ ops) q).2 =
+      (step E .all (fresh (run E .all empty (ops.map FOp.toOp))) q.toOp).2 := by
+  obtain ⟨h1, h2⟩ := coreOfMapping_empty
+  have ht : TInv genL E (coreOfMapping (.node [])) := by
+    intro k v h; simp [coreOfMapping, cDepth, Tree.isEmptyDict, lookup] at h
+  exact full_schema_refines_fresh E hf hty ⟨coreOfMapping (.node []), [], []⟩ 0 _
+    ⟨h1, ht, (memoInv_nil _ _ : NamesInv genL E []), (memoInv_nil _ _ : TablesInv genL E [])⟩ ⟨rfl, by intro k v h; simp [empty, lookup] at h⟩
+    (by rw [h2]; exact Equiv.refl _) ops hadm q hq
+
+end Full
+
+/-! ## The constructor path `__init__ -> _normalize(raw mapping)` -/
+
+section Ctor
+
+/-- **constructor_eq_incremental.** On the flat view, the mapping `_normalize` builds from a raw mapping (flatten
+    order, per-table key normalisation with `is_table=True`, per-column normalisation, column-by-column
+    `nested_set`) is the mapping of the empty schema after `add_table` of each raw table in the same order —
+    provided every table has a column, the depth is uniform and no two raw tables normalise to the same path. -/
+theorem constructor_eq_incremental (E : Env) (n : Nat) (raw : List (List Name × Cols)) (h : CtorOK E n raw) :
+    ctorFlat E raw = (run E .all empty (raw.map (addOpOf E))).mapping :=
+  ctor_run E .all n raw empty (by intro pc h; cases h) h (by intro kc _ h; cases h)
+
+/-- … hence a schema built by the constructor answers every query like the incrementally built one -/
+theorem constructor_answers_eq_incremental (E : Env) (n : Nat) (raw : List (List Name × Cols))
+    (h : CtorOK E n raw) (q : Op) :
+    (step E .all (fresh ⟨ctorFlat E raw, [], []⟩) q).2 =
+      (step E .all (run E .all empty (raw.map (addOpOf E))) q).2 :=
+  answer_eq_of_same_mapping E .all (fresh ⟨ctorFlat E raw, [], []⟩) _ (fresh_inv E _)
+    (run_inv E empty ⟨rfl, by intro k v h; simp [empty, lookup] at h⟩ _) (constructor_eq_incremental E n raw h) q
+
+example : CtorOK envA 0 [(["T"], [("A", "INT")]), (["u"], [("b", "TEXT")])] :=
+  ⟨by decide, by decide, by decide +kernel⟩
+
+/-- **why the no-collision precondition**: raw tables `T` and `t` normalise to the same path; the constructor
+    MERGES their columns, `add_table` replaces the first table by the second -/
+theorem constructor_merge_witness :
+    ctorFlat envA [(["T"], [("a", "INT")]), (["t"], [("b", "TEXT")])] = [(["t"], [("a", "INT"), ("b", "TEXT")])] ∧
+    (run envA .all empty ([(["T"], [("a", "INT")]), (["t"], [("b", "TEXT")])].map (addOpOf envA))).mapping
+      = [(["t"], [("b", "TEXT")])] := by decide +kernel
+
+/-- one `nested_set(normalized_mapping, keys + [col], type)` of the real inner loop refines the flat column set -/
+theorem nested_set_col_refines (d : Nat) (m : Tree) (path : Path) (col : Name) (ty : String)
+    (hs : Shape (d + 1) m) (hl : path.length = d + 1) :
+    Shape (d + 1) (nestedSetCol m path col ty) ∧
+    ∀ q, lookup (flatView (d + 1) (nestedSetCol m path col ty)) q =
+      if path = q then
+        some (dictSet (match lookup (flatView (d + 1) m) path with | some c => c | none => []) col ty)
+      else lookup (flatView (d + 1) m) q := nestedSetCol_refines d m path col ty hs hl
+
+end Ctor
 
 end SqlglotModel.Properties.C18
